@@ -56,6 +56,24 @@ def _factors(d, n):
     return const, out
 
 
+def const_exp_axioms(d, roots):
+    """exp(a) * exp(b) == exp(a + b) for the constant arguments that occur (closed expressions: e.g. branch lengths
+    read from a Newick string)"""
+    atoms = {}
+    for n in d.topo(list(roots)):
+        if d.ops[n] == 'uf' and d.args[n][0] == 'exp' and d.ops[d.args[n][1]] == 'const':
+            atoms[d.cval(d.args[n][1])] = n
+    out = []
+    keys = sorted(atoms)
+    for i, a in enumerate(keys):
+        for b in keys[i:]:
+            if a + b in atoms:
+                out.append(d.eq(d.mul(atoms[a], atoms[b]), atoms[a + b]))
+    for a in keys:
+        out.append(d.lt(0, atoms[a]))
+    return out
+
+
 def ground_axioms(d, roots, rounds=3, monotone=False, bounds=False, positivity=()):
     """positivity: extra nodes known to be > 0 (given as hypotheses elsewhere)."""
     ax = []
